@@ -327,7 +327,11 @@ fn normalise(msg: &str) -> String {
 }
 
 fn short_loc(loc: &str) -> String {
-    let l = loc.strip_prefix("/repo/").unwrap_or(loc);
+    // keep the path from the repository root on, wherever the tree lives (/repo or a scratch copy)
+    let l = match loc.find("/crates/grafeo-") {
+        Some(p) => &loc[p + 1..],
+        None => loc.strip_prefix("/repo/").unwrap_or(loc),
+    };
     // std / registry locations: keep the tail only
     if let Some(p) = l.find("/library/") {
         return format!("std:{}", &l[p + 9..]);
